@@ -70,6 +70,7 @@ fn t_c03(rng: &mut Rng, g: &mut GenCfg, w: &mut WorldCfg) {
         g.w[W_RESTART] = 2;
     }
     w.ids_every = 1;
+    w.merge_phase = rng.chance(1, 3);
     w.oracles = Some(Oracles { dump: true, ..Oracles::none() });
 }
 
